@@ -86,8 +86,10 @@ def apply (f : Fn) (pts : List Pt) : Option (Option Int × Cell) :=
     else some (none, .ratio (s.getD (n / 2 - 1) 0 + s.getD (n / 2) 0) 2)
   | .min => (selectBy (fun a b => a.v < b.v) pts).map fun p => (some p.t, .int p.v)
   | .max => (selectBy (fun a b => a.v > b.v) pts).map fun p => (some p.t, .int p.v)
-  | .first => (selectBy (fun a b => a.t < b.t) pts).map fun p => (some p.t, .int p.v)
-  | .last => (selectBy (fun a b => a.t > b.t) pts).map fun p => (some p.t, .int p.v)
+  -- two series of one group may carry the same timestamp: the reducers then take the larger
+  -- value (FloatFirstReduce / FloatLastReduce and their integer twins)
+  | .first => (selectBy (fun a b => a.t < b.t || (a.t == b.t && a.v > b.v)) pts).map fun p => (some p.t, .int p.v)
+  | .last => (selectBy (fun a b => a.t > b.t || (a.t == b.t && a.v > b.v)) pts).map fun p => (some p.t, .int p.v)
 
 /-- start of the bucket containing `t` -/
 def bucketStart (interval offset : Nat) (t : Int) : Int :=
